@@ -507,6 +507,8 @@ func c09History(c *Ctx, cs Case, prop string) {
 				if mustErr != "" {
 					if class != "err" || !sameTriples(before, abs) {
 						fail(i, "append of a "+mustErr+" must report an error and change nothing", class+" "+absStr(abs), "err "+absStr(before), "")
+					} else if !bytes.Equal(enc, prevEnc) {
+						fail(i, "append of a "+mustErr+" reported an error but the database encodes differently than before: an operation that fails changes nothing", hx(enc), hx(prevEnc), "")
 					}
 				} else if class != "ok" || !insertedOne(before, abs, x) {
 					fail(i, "a valid append must add exactly this one entry and keep the others in order", class+" "+absStr(abs), "ok "+absStr(before)+" + "+absStr([]triple{x}), "")
@@ -529,6 +531,8 @@ func c09History(c *Ctx, cs Case, prop string) {
 					}
 				} else if class != "err" || !sameTriples(before, abs) {
 					fail(i, "removing an absent entry must report an error and change nothing", class+" "+absStr(abs), "err "+absStr(before), "")
+				} else if !bytes.Equal(enc, prevEnc) {
+					fail(i, "removing an absent entry reported an error but the database encodes differently than before (a list was dropped or resized): an operation that fails changes nothing", hx(enc), hx(prevEnc), "")
 				}
 			case "Q", "QS":
 				want := fmt.Sprint(containsTriple(before, triple{f[1], f[2], f[3]}))
@@ -1007,6 +1011,87 @@ func historyShrunk(c *Ctx, cs Case, prop string) {
 
 func c09Eval(c *Ctx, cs Case) { historyShrunk(c, cs, "C09") }
 
+// genEmptyListHistory: databases that hold a list WITHOUT entries whose SignatureSize is not zero. The
+// library's own Append / Remove never leave such a list behind, but the decoder accepts it (ListSize 28, any
+// valid SignatureSize) and AppendList takes it from a caller, so "starting from a decoded database" and
+// "append-list" of the quantifier reach it. In the entry-collection view such a list holds nothing: every
+// operation has to look past it. The list sits in front of, between, or behind the lists that hold the
+// entries (of the same type and size, so that it "fits" every append / remove / query of that type), the
+// history then removes and queries entries that are present and that are absent, appends into it, encodes and
+// decodes, and goes on with a random history.
+func genEmptyListHistory(c *Ctx, u *c09Universe, i int, maxLen int) Case {
+	h := genHistory(c, u, maxLen)
+	var t []byte
+	var vals [][]byte
+	switch i % 3 {
+	case 0:
+		t, vals = tSHA256, [][]byte{u.data[0], u.data[1]}
+	case 1:
+		t, vals = tX509, [][]byte{u.data[4], u.data[6]} // certificates of one length
+	default:
+		t, vals = tEXT, [][]byte{u.ext[0], u.ext[1]}
+	}
+	size := len(vals[0]) + 16
+	o0, o1 := u.owners[0], u.owners[1]
+	sigs := [][2][]byte{{o0, vals[0]}}
+	if i/3%2 == 1 {
+		sigs = append(sigs, [2][]byte{o1, vals[1]})
+	}
+	full := encodeList(t, nil, size, sigs)
+	empty := encodeList(t, nil, size, nil)
+	other := encodeList(tX509, nil, 16+len(u.data[7]), nil) // a signature-less list of another size (and, for two of the types, another type)
+	cat := func(xs ...[]byte) string {
+		var b []byte
+		for _, x := range xs {
+			b = append(b, x...)
+		}
+		return hx(b)
+	}
+	entry := func(o, d []byte) string { return fmt.Sprintf("%s,%s,%s", hx(t), hx(o), hx(d)) }
+	present, absent := entry(o0, vals[0]), entry(o0, vals[1])
+	var pre []interface{}
+	start := "empty"
+	layout := i / 6 % 6
+	switch layout {
+	case 0:
+		start = cat(empty, full)
+	case 1:
+		start = cat(empty, empty, full)
+	case 2:
+		start = cat(other, empty, full)
+	case 3:
+		start = cat(full, empty)
+	case 4:
+		start = cat(empty)
+	default:
+		// the same through AppendList: a caller hands over a well-formed list without entries (ListSize 28, the
+		// type's SignatureSize), then the list that holds the entries
+		es := []string{}
+		for _, sg := range sigs {
+			es = append(es, hx(sg[0])+":"+hx(sg[1]))
+		}
+		pre = append(pre, fmt.Sprintf("LH,%s,%d,-,-", hx(t), size), fmt.Sprintf("L,%s,%d,%s", hx(t), size, strings.Join(es, "+")))
+	}
+	switch i / 36 % 4 {
+	case 0:
+		pre = append(pre, "R,"+absent, "Q,"+present, "R,"+present, "Q,"+present, "E")
+	case 1:
+		pre = append(pre, "R,"+present, "QS,"+present, "RS,"+absent, "E")
+	case 2:
+		pre = append(pre, "RS,"+absent, "E", "RS,"+present, "Q,"+present)
+	default:
+		pre = append(pre, "A,"+absent, "Q,"+absent, "R,"+present, "R,"+present, "Q,"+absent)
+	}
+	ops := pre
+	for _, o := range h["ops"].([]interface{}) {
+		if so := fmt.Sprint(o); layout == 5 && (strings.HasPrefix(so, "HA,") || strings.HasPrefix(so, "HR,")) {
+			continue // the ordinals of the held-list operations count the lists the random part handed over itself
+		}
+		ops = append(ops, o)
+	}
+	return Case{"op": "history", "pem": h["pem"], "start": start, "ops": ops}
+}
+
 func c09Gen(c *Ctx) {
 	u := newC09Universe(c)
 	for i := 0; i < c.N(3000, 100000); i++ {
@@ -1015,11 +1100,16 @@ func c09Gen(c *Ctx) {
 			break
 		}
 	}
+	// a generator of its own, so that the histories above stay what they were
+	sub := &Ctx{Rng: mrand.New(mrand.NewSource(c.Seed*49979687 + 13 + int64(c.Shard)*1000003)), Thorough: c.Thorough}
+	for i := 0; i < c.N(288, 10000) && c.NFailures() < 8; i++ {
+		historyShrunk(c, genEmptyListHistory(sub, u, i, c.P(6, 20)), "C09")
+	}
 }
 
 func init() {
 	register("C09", &PropDef{
-		Rule:   "random histories of append / remove / BytesExists / Exists (every third append, removal and membership query enters through the library's other name for the operation: SignatureDatabase.AppendSignature, RemoveSignature, SigDataExists - same oracle, and for PEM appends the same PEM-vs-DER comparison through that entry point; model driver ops AS / RS / QS, translated-code driver: the translated AppendSignature / RemoveSignature / SigDataExists) / AppendList / AppendList and AppendDatabase of a hand-built list with a 1..12-byte SignatureHeader (HeaderSize > 0; types SHA1 / SHA384, which only a caller can build, and two GUIDs that are no signature type at all - a list of a type unknown to the library can only enter this way, is part of the entry collection like any other, and must answer the queries and give up its entries to remove; later appends and removes are steered into that list) / HELD-LIST operations (the caller keeps the pointer of every list it handed to AppendList / AppendDatabase and goes on editing it through the list-level AppendBytes / RemoveBytes - lists of two to four equal-sized entries are handed over for this - interleaved with the database-level operations; in the library the database's list is that very list, which the oracle, the model driver and the translated-code driver follow with a book of positions; an edit may change the database by that one entry only, a list the database dropped or that a decode replaced must not change it at all; a RemoveBytes that would leave a signature-less list inside the database is skipped: known finding F20) / encode-decode over types {X509, SHA256, externally-managed (EFI_CERT_EXTERNAL_MANAGEMENT_GUID, whose signature size the specification fixes at 16+1), SHA1 (valid, undecodable), unknown GUID} x 2 owners x {two hashes, 31- and 33-byte strings, cert A DER/PEM/PEM behind a text preamble, cert B (|B|=|A|), cert C DER/PEM (|C|!=|A|), 20 bytes, cert D whose DER length equals the length of the PEM text of cert A; for the externally-managed type two one-byte values (the only well-formed size) and values of 0, 2 and 32 bytes}, started from empty or from a decoded well-formed stream (X.509, SHA-256 and externally-managed lists); WRONGLY-SIZED appends (F37): SHA-256 data that is not 32 bytes and externally-managed data that is not one byte must report an error and change nothing, through Append and AppendSignature alike; externally-managed lists are also handed over by AppendList (well-formed, and built through the list-level AppendBytes from values of all five sizes) and edited by their holder; operands are biased towards recently used triples. Every append of an X.509 certificate in PEM form is repeated with the DER form on a deep copy of the database: error class and entry collection have to be the same (PEM is stored as DER, whatever lists are present). Non-trivial: at least two operations of at least two kinds; distinct = distinct histories.",
+		Rule:   "random histories of append / remove / BytesExists / Exists (every third append, removal and membership query enters through the library's other name for the operation: SignatureDatabase.AppendSignature, RemoveSignature, SigDataExists - same oracle, and for PEM appends the same PEM-vs-DER comparison through that entry point; model driver ops AS / RS / QS, translated-code driver: the translated AppendSignature / RemoveSignature / SigDataExists) / AppendList / AppendList and AppendDatabase of a hand-built list with a 1..12-byte SignatureHeader (HeaderSize > 0; types SHA1 / SHA384, which only a caller can build, and two GUIDs that are no signature type at all - a list of a type unknown to the library can only enter this way, is part of the entry collection like any other, and must answer the queries and give up its entries to remove; later appends and removes are steered into that list) / HELD-LIST operations (the caller keeps the pointer of every list it handed to AppendList / AppendDatabase and goes on editing it through the list-level AppendBytes / RemoveBytes - lists of two to four equal-sized entries are handed over for this - interleaved with the database-level operations; in the library the database's list is that very list, which the oracle, the model driver and the translated-code driver follow with a book of positions; an edit may change the database by that one entry only, a list the database dropped or that a decode replaced must not change it at all; a RemoveBytes that would leave a signature-less list inside the database is skipped: known finding F20) / encode-decode over types {X509, SHA256, externally-managed (EFI_CERT_EXTERNAL_MANAGEMENT_GUID, whose signature size the specification fixes at 16+1), SHA1 (valid, undecodable), unknown GUID} x 2 owners x {two hashes, 31- and 33-byte strings, cert A DER/PEM/PEM behind a text preamble, cert B (|B|=|A|), cert C DER/PEM (|C|!=|A|), 20 bytes, cert D whose DER length equals the length of the PEM text of cert A; for the externally-managed type two one-byte values (the only well-formed size) and values of 0, 2 and 32 bytes}, started from empty or from a decoded well-formed stream (X.509, SHA-256 and externally-managed lists); WRONGLY-SIZED appends (F37): SHA-256 data that is not 32 bytes and externally-managed data that is not one byte must report an error and change nothing, through Append and AppendSignature alike; externally-managed lists are also handed over by AppendList (well-formed, and built through the list-level AppendBytes from values of all five sizes) and edited by their holder; operands are biased towards recently used triples. LISTS WITHOUT ENTRIES THAT CARRY A SIGNATURE SIZE (288 further histories, generator of their own): the database holds a signature-less list of the entry's type and size (ListSize 28, SignatureSize 48 / certificate size / 17) - decoded from the start stream in front of (once, twice, behind a signature-less list of another size), behind or instead of the list that holds the entries, or handed over by AppendList as a hand-built list followed by the list with the entries; the history then removes (Remove and RemoveSignature) an entry that is absent and one that is present, queries both, appends into the empty list, encodes and decodes, and continues with a random history - in the entry-collection view such a list holds nothing, so every operation has to look past it. Every append / removal that must fail is also required to leave the ENCODING as it was (an operation that reports an error changes nothing, not even a list without entries). Every append of an X.509 certificate in PEM form is repeated with the DER form on a deep copy of the database: error class and entry collection have to be the same (PEM is stored as DER, whatever lists are present). Non-trivial: at least two operations of at least two kinds; distinct = distinct histories.",
 		Assume: []string{"lists handed to AppendList / AppendDatabase are fresh, well-formed (ListSize = 28 + HeaderSize + n*SignatureSize, HeaderSize = len(SignatureHeader)) and duplicate-free (slice aliasing between two databases is outside the model; the caller's pointer to a handed-over list is inside it since the held-list operations); an empty one reproduces known finding F20", "a decoded start database has no duplicate entry inside a list"},
 		Eval:   c09Eval,
 		Gen:    c09Gen,
